@@ -113,7 +113,7 @@ class Checker:
         f = getattr(self, "p_" + cls, None)
         if f is not None:
             self.count(cls)
-            msg = f(ind, reading, cv, idx, 3 * rho(r) + 1e-9 if top else 3 * rho(min(r, 4)) + 1e-9)
+            msg = f(ind, reading, cv, idx, 3 * rho(r) + 1e-9)
             if msg:
                 self.fail(msg[0], ind, idx, msg[1])
 
